@@ -155,9 +155,20 @@ fn agg_oracle(c: &AggCase, info: &mut Case) -> Result<(), String> {
     if hb(&mdb_shard::chunk_verification::range_hash_from_chunks(&hs)) != rm::range_hash(&hs_ref) {
         return Err("[sig:c06-range-hash] range_hash_from_chunks differs from keyed-BLAKE3(verification key, concatenated hashes)".into());
     }
-    // hmac of an entry under the salt as key
+    // hmac of an entry under the salt as key, and under the extreme keys
     if hb(&mh(&list[a].0).hmac(mh(&salt))) != rm::hmac(&list[a].0, &salt) {
         return Err("[sig:c06-hmac] DataHash::hmac differs from keyed-BLAKE3(key, hash bytes)".into());
+    }
+    for k in [[0u8; 32], [0xffu8; 32]] {
+        if hb(&mh(&list[a].0).hmac(mh(&k))) != rm::hmac(&list[a].0, &k) {
+            return Err(format!("[sig:c06-hmac] DataHash::hmac differs from keyed-BLAKE3(key, hash bytes) under the key {:02x}..", k[0]));
+        }
+        if hb(&with_salt(&got_x, &k).map_err(|e| format!("[sig:c06-with-salt-err] {e}"))?) != rm::with_salt(&want_x, &k) {
+            return Err(format!("[sig:c06-with-salt] with_salt differs from keyed-BLAKE3(salt, hash) under the salt {:02x}..", k[0]));
+        }
+    }
+    if hb(&zero_salt_f) != rm::file_hash(&list, &[0u8; 32]) {
+        return Err("[sig:c06-file-node-hash] file_node_hash under the all-zero salt differs from the reference construction".into());
     }
 
     // metamorphic: change / swap / insert / drop => different aggregate (skip mutations that
